@@ -506,6 +506,7 @@ func TestC05Commands(t *testing.T) {
 		var lines []string
 		nontrivial := false
 		wantErr := false
+		sawNoMatch := false
 		caseDiff := false
 		for _, c := range prog {
 			lines = append(lines, c.text)
@@ -526,7 +527,9 @@ func TestC05Commands(t *testing.T) {
 			case "weight":
 				n, in := m.weight(c)
 				if n == 0 {
-					wantErr = true
+					// nothing matches: the statement only says "changes only the matching
+					// targets"; fabio rejects the program today, a no-op would satisfy it too
+					sawNoMatch = true
 				} else if n < in {
 					nontrivial = true
 					if c.src != strings.ToLower(c.src) {
@@ -538,12 +541,12 @@ func TestC05Commands(t *testing.T) {
 		text := strings.Join(lines, "\n")
 		tbl, err := route.NewTable(bytes.NewBufferString(text))
 		hx.Eval()
-		if wantErr {
+		_ = wantErr
+		if sawNoMatch {
 			hx.Class("weight-without-match")
-			if err == nil {
-				t.Fatalf("a 'route weight' that matches nothing was accepted\n%s", text)
+			if err != nil {
+				return // rejected as a whole: allowed
 			}
-			return
 		}
 		if err != nil {
 			t.Fatalf("well-formed program rejected: %v\n%s", err, text)
